@@ -771,6 +771,15 @@ class PseudoNetCDFFile(PseudoNetCDFSelfReg, object):
             if oldkey in outf.variables:
                 del outf.variables[oldkey]
 
+        # renamed coordinate variables stay registered under the new name
+        oldcoords = outf.getCoords()
+        if any([oldkey in oldcoords for oldkey in newkeys]):
+            newcoords = tuple([newkeys.get(ck, ck) for ck in oldcoords])
+            if isinstance(outf, netcdf):
+                outf.__dict__['_operator_exclude_vars'] = newcoords
+            else:
+                outf._operator_exclude_vars = newcoords
+
         return outf
 
     def renameDimension(self, oldkey, newkey, inplace=False):
@@ -1005,7 +1014,9 @@ class PseudoNetCDFFile(PseudoNetCDFSelfReg, object):
                 newkeys = [key]
                 outf = self.subsetVariables(newkeys)
                 try:
-                    del outf.variables[key]
+                    # coordinate variables stay (they remain registered)
+                    if key not in outf.getCoords():
+                        del outf.variables[key]
                 except Exception:
                     pass
 
